@@ -73,3 +73,20 @@ Proof. intros; split; reflexivity. Qed.
    sparse for each kron / add step; their composition over a whole operator representation
    (sparse_from_repr vs dense_from_repr) is not stated as a single theorem: it is validated by the exact
    correspondence (N <= 3 through the model, N <= 8 on the real code). *)
+
+(* DensityMatrix.overlap on ARBITRARY (not necessarily Hermitian) D x D data is Tr(A^dagger B):
+   overlap(A,B) = sum_c sum_r conj(A[r,c]) * B[r,c] = sum_c (A^dagger B)[c,c]. *)
+Theorem C12_dm_overlap_trace : forall (o : Kops), Klaws o -> forall D (a b : list o), length a = D * D ->
+  dm_overlap o a b =
+  ksumn D (fun c => ksumn D (fun r => kmul o (kconj o (get a (r * D + c))) (get b (r * D + c)))).
+Proof. exact dm_overlap_trace. Qed.
+
+(* inner / overlap (both are vdot) are anti-linear in the first slot and conjugate-symmetric. *)
+Theorem C12_overlap_antilinear : forall (o : Kops), Klaws o -> forall s (a b : list o),
+  dm_overlap o (vscale s a) b = kmul o (kconj o s) (dm_overlap o a b) /\
+  sv_inner o (vscale s a) b = kmul o (kconj o s) (sv_inner o a b).
+Proof. intros o H s a b. split; exact (vdot_antilinear o H s a b). Qed.
+
+Theorem C12_overlap_conj_sym : forall (o : Kops), Klaws o -> forall (a b : list o), length a = length b ->
+  dm_overlap o a b = kconj o (dm_overlap o b a) /\ sv_inner o a b = kconj o (sv_inner o b a).
+Proof. intros o H a b E. split; exact (vdot_conj_sym o H a b E). Qed.
